@@ -532,7 +532,40 @@ pub fn chk_exact(cx: &Ctx) -> Vec<Viol> {
             }
         }
     }
-    // by-value unwrapped source: bursts of next() per thread between that thread's closure calls
+    // by-value sources (also unwrapped ones): bursts of next() calls of one thread between that thread's closure
+    // calls = what one pull took from the source
+    let by_value = matches!(cx.case.src, hcore::case::Src::SIter | hcore::case::Src::PIter | hcore::case::Src::PConIter | hcore::case::Src::PConIterPar);
+    if by_value && !cx.case.kinds().is_empty() && !cx.case.term.is_short_circuit() && cx.obs.result.is_ok() && !cx.case.endless {
+        let mut cur: BTreeMap<u16, Vec<i64>> = BTreeMap::new();
+        let mut bursts: Vec<(u16, Vec<i64>)> = Vec::new();
+        for e in &cx.obs.rec.log {
+            match e.kind {
+                OpKind::SrcNext if e.a < n => cur.entry(e.thread).or_default().push(e.a),
+                OpKind::Closure | OpKind::End => {
+                    if let Some(b) = cur.remove(&e.thread) {
+                        if !b.is_empty() {
+                            bursts.push((e.thread, b));
+                        }
+                    }
+                }
+                _ => {}
+            }
+        }
+        let mut short = 0;
+        for (t, b) in &bursts {
+            if b.len() > c {
+                vs.push(v("exact-burst", format!("Exact({}): thread {} advanced the source iterator {} times in one pull (positions {:?})", c, t, b.len(), b)));
+            } else if b.len() < c {
+                short += 1;
+                if *b.last().unwrap() != n - 1 {
+                    vs.push(v("exact-burst", format!("Exact({}): thread {} took only positions {:?} of a source of {} in one pull", c, t, b, n)));
+                }
+            }
+        }
+        if short > 1 {
+            vs.push(v("exact-burst", format!("Exact({}): {} short pulls from the by-value source", c, short)));
+        }
+    }
     vs
 }
 
